@@ -192,6 +192,21 @@ def k3_get_date_fields(y: int, mo: int, d: int, h: int, mi: int, s: int) -> bool
     return base.get_date(text) == datetime.datetime(y, mo, d, h, mi, s)
 
 
+def k3_get_date_micro(ds: List[int], sec: int) -> bool:
+    """
+    pre: len(ds) == 6 and all(0 <= x <= 9 for x in ds) and 0 <= sec < 60
+    post: __return__
+    """
+    # the fractional field: ANY six digits (all 10**6 microsecond counts at once), written digit by digit so that the
+    # expected value is arithmetic over the digits, not the code's own int()
+    frac = ''.join(chr(48 + x) for x in ds)
+    text = '2001-02-03 04:05:%s%s.%s' % (chr(48 + sec // 10), chr(48 + sec % 10), frac)
+    us = ((((ds[0] * 10 + ds[1]) * 10 + ds[2]) * 10 + ds[3]) * 10 + ds[4]) * 10 + ds[5]
+    got = base.get_date(text)
+    return (type(got) is datetime.datetime and got.microsecond == us and got.second == sec
+            and (got.year, got.month, got.day, got.hour, got.minute) == (2001, 2, 3, 4, 5))
+
+
 def _obs():
     obs = []
     Q, T = 'quick', 'thorough'
@@ -240,6 +255,9 @@ def _obs():
         obs.append(Ob('K3', 'k3_get_date_fields', 'get_date(str(dt)) == dt: the captured groups are converted in order',
                       'year %d month %d fixed; day 1..28, hour, minute, second symbolic' % (y, mo),
                       param={'fixed': [y, mo]}, timeout=300, tier=T))
+    obs.append(Ob('K3', 'k3_get_date_micro', 'get_date(str(dt)) keeps the microsecond and second fields exactly, for every '
+                  'six-digit fraction', 'date and hour:minute fixed; six symbolic fraction digits (all 10**6 microsecond '
+                  'counts), seconds symbolic 0..59', timeout=300))
     return obs
 
 
